@@ -143,6 +143,23 @@ theorem system_stays_open {env : Env} {s s' : State} {c : Call} {r : Result}
         simp [body, ho]
       · rw [body_sysOpen env s c (fun k hk' => hk ⟨k, hk'⟩) hc]; exact ho
 
+/-- An open interface stays open under every call except `IFClose` and `TLClose` (which closes
+the interfaces of the system it closes) — so every `TLOpenInterface` until then is refused. -/
+theorem interface_stays_open {env : Env} {s s' : State} {c : Call} {r : Result}
+    (h : step env s c = .done s' r) (ho : s.ifOpen = true)
+    (h1 : ∀ k, c ≠ .tlClose k) (h2 : ∀ k, c ≠ .ifClose k) : s'.ifOpen = true := by
+  unfold step at h
+  split at h
+  · rw [(finish_done h).1.2.2.1]; exact ho
+  · split at h
+    · cases h; exact ho
+    · rw [(finish_done h).1.2.2.1]
+      by_cases hk : ∃ x id k, c = .tlOpenInterface x id k
+      · obtain ⟨x, id, k, rfl⟩ := hk
+        simp only [body]
+        split <;> (try split) <;> (try split) <;> simp [ho, State.setSlot]
+      · rw [body_ifOpen env s c (fun x id k hk' => hk ⟨x, id, k, hk'⟩) h1 h2]; exact ho
+
 /-! ## 3. A module that was closed (or never opened) can be opened -/
 
 theorem close_system_ok (env : Env) (s : State) (h : Nat)
@@ -499,11 +516,14 @@ theorem port_read_length (env : Env) (s : State) (m : Module) (address size : Na
     simp [List.length_take, List.length_drop]; omega
   all_goals (rw [h1] at h; cases h)
 
-/-- `GCReadPort` through the C wrapper: never aborts; on success the caller's buffer starts with
-exactly the map's bytes and `*piSize` is the requested size; on error buffer and size are
-untouched and the error is one of the four codes (-1006 for a NULL handle). -/
+/-- `GCReadPort` through the C wrapper, for every address and every size a buffer can have
+(`size ≤ isize::MAX`) and a caller that owns the `size` bytes it names: never aborts; on success
+the caller's buffer starts with exactly the map's bytes and `*piSize` is the requested size; on
+error buffer and size are untouched and the error is one of the four codes (-1006 for a NULL
+handle). -/
 theorem gcReadPort_exact_or_error (env : Env) (s : State) (h address size : Nat) (buf : Bytes)
-    (hi : s.libInit = true) (hfree : s.slots h ≠ .freed) :
+    (hi : s.libInit = true) (hfree : s.slots h ≠ .freed) (hsz : size ≤ ISIZE_MAX)
+    (hb : size ≤ buf.length) :
     (∃ m, portOf (s.slots h) = .ok m ∧
       step env s (.gcReadPort h address size buf) =
         .done s ⟨0, .read size (((memOf s m).drop (asUsize address)).take size ++ buf.drop size)⟩ ∧
@@ -513,23 +533,43 @@ theorem gcReadPort_exact_or_error (env : Env) (s : State) (h address size : Nat)
       (e = .invalidAddress ∨ e = .accessDenied ∨ e = .notInitialized ∨ e = .invalidHandle)) := by
   have hf : usesFreed s (.gcReadPort h address size buf) = false := by
     simp [usesFreed, Call.handle?, hfree]
+  have hsz' : ¬ size > ISIZE_MAX := by omega
   cases hp : portOf (s.slots h) with
   | err e =>
     right
     have : e = .invalidHandle := by
       unfold portOf at hp; split at hp <;> simp_all
     subst this
-    exact ⟨.invalidHandle, by simp [step, Call.noAssert, hi, hf, body, hp, finish, Call.untouched], by simp⟩
+    exact ⟨.invalidHandle, by simp [step, Call.noAssert, hi, hf, body, hp, finish, Call.untouched, hsz'], by simp⟩
   | panic => unfold portOf at hp; split at hp <;> simp_all
   | ok m =>
     rcases port_read_exact_or_error env s m address size with ⟨h1, h2⟩ | h1 | h1 | ⟨h1, _⟩
     · left
       refine ⟨m, rfl, ?_, h2⟩
       have hl := port_read_length env s m address size _ h1
-      simp [step, Call.noAssert, hi, hf, body, hp, finish, h1, hl]
-    · right; exact ⟨.invalidAddress, by simp [step, Call.noAssert, hi, hf, body, hp, finish, Call.untouched, h1], by simp⟩
-    · right; exact ⟨.accessDenied, by simp [step, Call.noAssert, hi, hf, body, hp, finish, Call.untouched, h1], by simp⟩
-    · right; exact ⟨.notInitialized, by simp [step, Call.noAssert, hi, hf, body, hp, finish, Call.untouched, h1], by simp⟩
+      simp [step, Call.noAssert, hi, hf, body, hp, finish, h1, hl, hsz', hb]
+    · right; exact ⟨.invalidAddress, by simp [step, Call.noAssert, hi, hf, body, hp, finish, Call.untouched, h1, hsz'], by simp⟩
+    · right; exact ⟨.accessDenied, by simp [step, Call.noAssert, hi, hf, body, hp, finish, Call.untouched, h1, hsz'], by simp⟩
+    · right; exact ⟨.notInitialized, by simp [step, Call.noAssert, hi, hf, body, hp, finish, Call.untouched, h1, hsz'], by simp⟩
+
+/-- A size no buffer can have (`> isize::MAX`, e.g. `u64::MAX`) is refused with INVALID_PARAMETER
+before a slice is built from it — by `GCReadPort` and `GCWritePort`, whatever the handle. -/
+theorem impossible_size_refused (env : Env) (s : State) (h address size : Nat) (buf : Bytes)
+    (hi : s.libInit = true) (hsz : size > ISIZE_MAX) :
+    (s.slots h ≠ .freed → step env s (.gcReadPort h address size buf) =
+      .done { s with lastErr := some .invalidParameter } ⟨-1009, .read size buf⟩) ∧
+    (s.slots h ≠ .freed → step env s (.gcWritePort h address size buf) =
+      .done { s with lastErr := some .invalidParameter } ⟨-1009, .write size⟩) := by
+  constructor <;> intro hfree <;>
+    simp [step, Call.noAssert, usesFreed, Call.handle?, hfree, hi, body, finish, Call.untouched, hsz, Err.code]
+
+/-- A NULL required pointer parameter (out-pointer, `piSize`, `piType`, id string, port buffer,
+stacked entry array / entry buffer) is refused with INVALID_PARAMETER before anything is
+dereferenced or written, by every entry point, in every state, whatever the handle. -/
+theorem null_pointer_refused (env : Env) (s : State) (c : Call) (hi : s.libInit = true) :
+    step env s (.nullPtr c) =
+      .done { s with lastErr := some .invalidParameter } ⟨-1009, c.untouched⟩ := by
+  simp [step, Call.noAssert, usesFreed, Call.handle?, hi, body, finish, Call.untouched, Err.code]
 
 /-- **Writes.**  For every module, address and data, in every well-formed state, `Port::write`
 never panics and either
@@ -618,9 +658,11 @@ theorem wf_run (env : Env) (cs : List Call) :
       exact ih s1 _ s' (wf_step hstep hwf) (Prod.ext rfl h.2)
     · simp at h
 
-/-- `GCWritePort` through the C wrapper never aborts the process (well-formed state). -/
-theorem gcWritePort_never_aborts (env : Env) (s : State) (h address : Nat) (data : Bytes)
-    (hwf : WF env s) : step env s (.gcWritePort h address data) ≠ .abort := by
+/-- `GCWritePort` through the C wrapper never aborts the process (well-formed state, a caller
+that owns the `size` bytes it names), for every address and every size. -/
+theorem gcWritePort_never_aborts (env : Env) (s : State) (h address size : Nat) (data : Bytes)
+    (hwf : WF env s) (hd : data.length = size) :
+    step env s (.gcWritePort h address size data) ≠ .abort := by
   unfold step
   split
   · simp [finish]
@@ -628,13 +670,18 @@ theorem gcWritePort_never_aborts (env : Env) (s : State) (h address : Nat) (data
     · simp
     · simp only [body]
       split
-      · rename_i m _
-        rcases port_write_exact_or_error env s m address data hwf with ⟨e, h1, _⟩ | ⟨s', r, h1, _, _, _, hr⟩
-        · rw [h1]; simp [finish]
-        · rw [h1]
-          rcases hr with rfl | rfl | ⟨rfl, _⟩ <;> simp [finish]
       · simp [finish]
-      · rename_i hp; unfold portOf at hp; split at hp <;> simp_all
+      · split
+        · rename_i m _
+          have e1 : portWriteSized env s m address size data = portWrite env s m address data := by
+            simp [portWriteSized, hd]
+          rw [e1]
+          rcases port_write_exact_or_error env s m address data hwf with ⟨e, h1, _⟩ | ⟨s', r, h1, _, _, _, hr⟩
+          · rw [h1]; simp [finish]
+          · rw [h1]
+            rcases hr with rfl | rfl | ⟨rfl, _⟩ <;> simp [finish]
+        · simp [finish]
+        · rename_i hp; unfold portOf at hp; split at hp <;> simp_all
 
 /-- non-vacuity of the write theorem: a 4-byte write of zero to the InterfaceSelector register
 (address 1028) of a well-formed initial state is stored and returns Ok. -/
@@ -673,27 +720,34 @@ private theorem portWrite_ne_panic (env : Env) (s : State) (m : Module) (a : Nat
   · rw [h]; rcases hr with rfl | rfl | ⟨rfl, _⟩ <;> simp
 
 private theorem readStacked_ne_panic (env : Env) (s : State) (m : Module) (es : List (Nat × Nat × Bytes)) (n : Nat)
-    (acc : List Bytes) : (readStacked env s m es n acc).2.2 ≠ .panic := by
+    (acc : List Bytes) (hh : es.all (fun e => decide (e.2.1 ≤ e.2.2.length)) = true) :
+    (readStacked env s m es n acc).2.2 ≠ .panic := by
   induction es generalizing n acc with
   | nil => simp [readStacked]
   | cons e es ih =>
     obtain ⟨a, size, buf⟩ := e
+    simp only [List.all_cons, Bool.and_eq_true, decide_eq_true_eq] at hh
     unfold readStacked
     split
-    · exact ih _ _
+    · rw [if_pos hh.1]; exact ih _ _ hh.2
     · simp
     · rename_i h; exact absurd h (portRead_ne_panic env s m a size)
 
-private theorem writeStacked_ne_panic (env : Env) (m : Module) (s : State) (es : List (Nat × Bytes)) (n : Nat)
-    (hwf : WF env s) : (writeStacked env m s es n).2.2 ≠ .panic := by
+private theorem writeStacked_ne_panic (env : Env) (m : Module) (s : State) (es : List (Nat × Nat × Bytes)) (n : Nat)
+    (hwf : WF env s) (hh : es.all (fun e => decide (e.2.2.length = e.2.1)) = true) :
+    (writeStacked env m s es n).2.2 ≠ .panic := by
   induction es generalizing s n with
   | nil => simp [writeStacked]
   | cons e es ih =>
-    obtain ⟨a, data⟩ := e
+    obtain ⟨a, size, data⟩ := e
+    simp only [List.all_cons, Bool.and_eq_true, decide_eq_true_eq] at hh
     unfold writeStacked
+    have e1 : portWriteSized env s m a size data = portWrite env s m a data := by
+      simp [portWriteSized, hh.1]
+    rw [e1]
     split
     · rename_i s' _ heq
-      exact ih _ _ (portWrite_eq_wf hwf heq)
+      exact ih _ _ (portWrite_eq_wf hwf heq) hh.2
     · simp
     · rename_i s' heq
       have := portWrite_ne_panic env s m a data hwf
@@ -724,71 +778,89 @@ private theorem infoOut_ne_panic (v : Val) (d : Dst) : infoOut v d ≠ .panic :=
 private theorem copyOut_ne_panic (v : Val) (d : Dst) : copyOut v d ≠ .panic := by
   unfold copyOut; have := copyTo_ne_panic v d; split <;> simp_all
 
-private theorem portWrite_eq_ne_panic {env : Env} {s s' : State} {m : Module} {a : Nat} {d : Bytes} {r : GR Nat}
-    (hwf : WF env s) (h : portWrite env s m a d = (s', r)) : r ≠ .panic := by
+private theorem portWriteSized_eq_ne_panic {env : Env} {s s' : State} {m : Module} {a size : Nat} {d : Bytes}
+    {r : GR Nat} (hwf : WF env s) (hd : d.length = size)
+    (h : portWriteSized env s m a size d = (s', r)) : r ≠ .panic := by
   have := portWrite_ne_panic env s m a d hwf
+  have e1 : portWriteSized env s m a size d = portWrite env s m a d := by simp [portWriteSized, hd]
+  rw [e1] at h
   rw [h] at this; exact this
 
 private theorem readStacked_eq_ne_panic {env : Env} {s : State} {m : Module} {es : List (Nat × Nat × Bytes)}
     {n k : Nat} {acc bufs : List Bytes} {r : GR Unit}
+    (hh : es.all (fun e => decide (e.2.1 ≤ e.2.2.length)) = true)
     (h : readStacked env s m es n acc = (k, bufs, r)) : r ≠ .panic := by
-  have := readStacked_ne_panic env s m es n acc
+  have := readStacked_ne_panic env s m es n acc hh
   rw [h] at this; exact this
 
-private theorem writeStacked_eq_ne_panic {env : Env} {m : Module} {s s' : State} {es : List (Nat × Bytes)}
+private theorem writeStacked_eq_ne_panic {env : Env} {m : Module} {s s' : State} {es : List (Nat × Nat × Bytes)}
     {n k : Nat} {r : GR Unit} (hwf : WF env s)
+    (hh : es.all (fun e => decide (e.2.2.length = e.2.1)) = true)
     (h : writeStacked env m s es n = (s', k, r)) : r ≠ .panic := by
-  have := writeStacked_ne_panic env m s es n hwf
+  have := writeStacked_ne_panic env m s es n hwf hh
   rw [h] at this; exact this
 
-/-- No call body panics in a well-formed state. -/
-private theorem body_ne_panic (env : Env) (s : State) (c : Call) (hwf : WF env s) (hp : fileName env.path ≠ none) :
-    (body env s c).res ≠ .panic := by
+/-- No call body panics in a well-formed state (honest buffer sizes). -/
+private theorem body_ne_panic (env : Env) (s : State) (c : Call) (hwf : WF env s) (hp : fileName env.path ≠ none)
+    (hh : c.honest = true) : (body env s c).res ≠ .panic := by
   cases c <;> simp only [body] <;> (repeat' split)
   all_goals (try simp)
   all_goals first
     | exact infoOut_ne_panic _ _
     | exact copyOut_ne_panic _ _
-    | exact portWrite_eq_ne_panic hwf (by assumption) rfl
-    | exact readStacked_eq_ne_panic (by assumption) rfl
-    | exact writeStacked_eq_ne_panic hwf (by assumption) rfl
-    | simp_all [wantSystem_ne_panic, wantInterface_ne_panic, portOf_ne_panic, portMeta_ne_panic,
+    | exact portWriteSized_eq_ne_panic hwf (by simpa [Call.honest] using hh) (by assumption) rfl
+    | exact readStacked_eq_ne_panic (by simpa [Call.honest] using hh) (by assumption) rfl
+    | exact writeStacked_eq_ne_panic hwf (by simpa [Call.honest] using hh) (by assumption) rfl
+    | simp_all [Call.honest, wantSystem_ne_panic, wantInterface_ne_panic, portOf_ne_panic, portMeta_ne_panic,
         copyTo_ne_panic, queryValue_ne_panic, portRead_ne_panic]
 
 /-- **No C call aborts the process**: in every well-formed state (every state reachable from the
-initial one, `wf_init` / `wf_run`), every entry point with every argument returns. -/
+initial one, `wf_init` / `wf_run`), every entry point with every argument — any handle variable,
+index, command, id, address, size up to and beyond `isize::MAX`, NULL pointers — returns.
+`c.honest`: the caller owns the buffer sizes it names (otherwise the copy itself is out of bounds
+in the caller's memory). -/
 theorem step_never_aborts (env : Env) (s : State) (c : Call) (hwf : WF env s)
-    (hp : fileName env.path ≠ none) : step env s c ≠ .abort := by
+    (hp : fileName env.path ≠ none) (hh : c.honest = true) : step env s c ≠ .abort := by
   unfold step
   split
   · simp [finish]
   · split
     · simp
-    · have := body_ne_panic env s c hwf hp
+    · have := body_ne_panic env s c hwf hp hh
       unfold finish
       split <;> simp_all
 
 /-- … hence no call sequence does: from a well-formed state `run` always ends with a state. -/
-theorem run_never_aborts (env : Env) (hp : fileName env.path ≠ none) (cs : List Call) :
+theorem run_never_aborts (env : Env) (hp : fileName env.path ≠ none) (cs : List Call)
+    (hh : ∀ c ∈ cs, c.honest = true) :
     ∀ s, WF env s → ∃ rs s', run env s cs = (rs, some s') ∧ rs.length = cs.length := by
   induction cs with
   | nil => intro s _; exact ⟨[], s, rfl, rfl⟩
   | cons c cs ih =>
     intro s hwf
     cases hstep : step env s c with
-    | abort => exact absurd hstep (step_never_aborts env s c hwf hp)
+    | abort => exact absurd hstep (step_never_aborts env s c hwf hp (hh c List.mem_cons_self))
     | done s1 r =>
-      obtain ⟨rs, s', h, hl⟩ := ih s1 (wf_step hstep hwf)
+      obtain ⟨rs, s', h, hl⟩ := ih (fun c' hc' => hh c' (List.mem_cons_of_mem _ hc')) s1 (wf_step hstep hwf)
       exact ⟨r :: rs, s', by simp [run, hstep, h], by simp [hl]⟩
 
 example : fileName (asc "/repo/gentl/src/imp/system/mod.rs") = some (asc "mod.rs") := by decide
 
-/-- From the library's initial state no call sequence whatsoever — any entry points, any handles,
-indexes, commands, ids, buffers, addresses, sizes, data — crashes the process. -/
+/-- From the library's initial state no call sequence whatsoever — any entry points, any handle
+variables (NULL or live; a call on a handle variable that was freed by a successful close is
+undefined behaviour in C, the model does not make it: `Out.skipped`), indexes, commands, ids,
+buffers, NULL pointers, addresses, sizes (honest: the caller owns the bytes it names), data —
+crashes the process. -/
 theorem no_call_sequence_crashes (env : Env) (hlen : env.path.length ≤ 1024)
-    (hname : fileName env.path ≠ none) (cs : List Call) :
+    (hname : fileName env.path ≠ none) (cs : List Call) (hh : ∀ c ∈ cs, c.honest = true) :
     ∃ rs s', run env (State.init env) cs = (rs, some s') ∧ rs.length = cs.length :=
-  run_never_aborts env hname cs _ (wf_init env hlen)
+  run_never_aborts env hname cs hh _ (wf_init env hlen)
+
+/-- the honesty hypothesis is satisfiable by port calls with sizes beyond `isize::MAX` and by
+NULL-pointer calls -/
+example : (Call.gcReadPort 0 0 (2 ^ 64 - 1) (List.replicate 0 0)).honest = false ∧
+    (Call.nullPtr (.gcReadPort 0 0 (2 ^ 64 - 1) [])).honest = true ∧
+    (Call.gcWritePort 0 1028 4 [0, 0, 0, 0]).honest = true := by decide
 
 /-! ## 8. The register tables are the `#[register_map]` layout -/
 
